@@ -66,3 +66,38 @@ Theorem C03_matel_antisymmetric_annihilators :
   ropp (inner R rO radd rmul rconj bra (act_string R ropp (a ++ [mkop q false; mkop p false] ++ b) ket)).
 Proof. exact matel_antisymmetric_annihilators. Qed.
 Print Assumptions C03_matel_antisymmetric_annihilators.
+
+(* Wick's theorem as wick.py's rewriting loop performs it (spin-orbital mode): the expansion of a pattern into
+   normal-ordered patterns acts like the pattern itself - every pattern, every fuel, every ring, every bra and ket -
+   so a tensor assembled from particle RDMs through it is the matrix element of the requested pattern; with fuel
+   above the number of inversions every produced pattern is normal ordered (an n-particle RDM pattern). *)
+From FQE Require Import Wick.
+Theorem C03_wick_expansion_sound :
+  forall (R : Type) (rO rI : R) (radd rmul rsub : R -> R -> R) (ropp : R -> R),
+  ring_theory rO rI radd rmul rsub ropp eq ->
+  forall (fuel : nat) (c : R) (s : list lop) (n : nat) (v : vec R) (d : det),
+  below n s -> wide R n v ->
+  coeff R rO radd (act_poly R rmul ropp (expand R ropp fuel c s) v) d = rmul c (coeff R rO radd (act_string R ropp s v) d).
+Proof. exact expand_sound. Qed.
+Print Assumptions C03_wick_expansion_sound.
+
+Theorem C03_wick_matrix_element :
+  forall (R : Type) (rO rI : R) (radd rmul rsub : R -> R -> R) (ropp : R -> R),
+  ring_theory rO rI radd rmul rsub ropp eq ->
+  forall (rconj : R -> R) (fuel : nat) (s : list lop) (n : nat) (bra ket : vec R),
+  below n s -> wide R n ket ->
+  inner R rO radd rmul rconj bra (act_poly R rmul ropp (expand R ropp fuel rI s) ket)
+  = inner R rO radd rmul rconj bra (act_string R ropp s ket).
+Proof. exact expand_matel. Qed.
+Print Assumptions C03_wick_matrix_element.
+
+Theorem C03_wick_expansion_normal_ordered :
+  forall (R : Type) (ropp : R -> R) (fuel : nat) (c : R) (s : list lop),
+  inversions s < fuel -> Forall (fun t => normal (snd t)) (expand R ropp fuel c s).
+Proof. exact expand_normal. Qed.
+Print Assumptions C03_wick_expansion_normal_ordered.
+
+Theorem C03_normal_is_creators_then_annihilators :
+  forall s, normal s -> exists a b, s = a ++ b /\ Forall (fun o => odag o = true) a /\ Forall (fun o => odag o = false) b.
+Proof. exact normal_shape. Qed.
+Print Assumptions C03_normal_is_creators_then_annihilators.
